@@ -309,33 +309,55 @@ Section RowShape.
     left. exists q. reflexivity.
   Qed.
 
+  (* [jac_row]'s nested matches elaborate to a very large term: each of the
+     following is ONE unfolding, checked by conversion *)
   Lemma jac_row_Add : forall l r,
       jac_row V (Bin Add l r) =
       match r with
       | Const _ => jac_row V l
       | _ => match l with Const _ => jac_row V r | _ => None end
       end.
-  Proof. intros l r. destruct r; destruct l; reflexivity. Qed.
+  Proof. intros l r. reflexivity. Qed.
 
   Lemma jac_row_Sub : forall l r,
       jac_row V (Bin Sub l r) = match r with Const _ => jac_row V l | _ => None end.
-  Proof. intros l r. destruct r; destruct l; reflexivity. Qed.
+  Proof. intros l r. reflexivity. Qed.
+
+  Lemma jac_row_Div : forall l r, jac_row V (Bin Div l r) = None.
+  Proof. intros l r. reflexivity. Qed.
+
+  Lemma jac_row_Pow : forall l r, jac_row V (Bin Pow l r) = None.
+  Proof. intros l r. reflexivity. Qed.
+
+  Lemma jac_row_Mul : forall l r,
+      jac_row V (Bin Mul l r) =
+      let right_case :=
+          match r with
+          | Const c => match jac_row V l with
+                       | Some row => Some (map (scale_r c) row) | None => None end
+          | _ => None
+          end in
+      match l with
+      | Const c => match jac_row V r with
+                   | Some row => Some (map (scale_l c) row)
+                   | None => right_case
+                   end
+      | _ => right_case
+      end.
+  Proof. intros l r. reflexivity. Qed.
+
+  Lemma jac_row_Const : forall c, jac_row V (Const c) = None.
+  Proof. intros c. reflexivity. Qed.
+
+  Opaque jac_row.
 
   Lemma jac_row_Mul_c : forall c r,
       jac_row V (Bin Mul (Const c) r) =
       match jac_row V r with Some row => Some (map (scale_l c) row) | None => None end.
   Proof.
-    intros c r.
-    change (jac_row V (Bin Mul (Const c) r)) with
-        (match jac_row V r with
-         | Some row0 => Some (map (scale_l c) row0)
-         | None => match r with
-                   | Const c' => match jac_row V (Const c) with
-                                 | Some row0 => Some (map (scale_r c') row0)
-                                 | None => None end
-                   | _ => None end
-         end).
-    destruct (jac_row V r); [reflexivity|]. destruct r; reflexivity.
+    intros c r. rewrite jac_row_Mul. cbv zeta.
+    destruct (jac_row V r); [reflexivity|].
+    rewrite jac_row_Const. destruct r; reflexivity.
   Qed.
 
   Lemma jac_row_Mul_nc : forall l r,
@@ -347,7 +369,8 @@ Section RowShape.
       | _ => None
       end.
   Proof.
-    intros l r Hl. destruct l; try (destruct r; reflexivity).
+    intros l r Hl. rewrite jac_row_Mul. cbv zeta.
+    destruct l; try reflexivity.
     exfalso. eapply Hl. reflexivity.
   Qed.
 
@@ -369,9 +392,10 @@ Section RowShape.
       + destruct (const_dec l) as [[c Hc]|Hl].
         * subst l. right; left. exists c.
           split; [reflexivity|]. split; [reflexivity|].
-          destruct r; try exact H. exfalso. eapply Hr. reflexivity.
-        * exfalso. destruct r; try (destruct l; discriminate H).
-          eapply Hr. reflexivity.
+          destruct r; try exact H; exfalso; eapply Hr; reflexivity.
+        * exfalso.
+          destruct r; try (eapply Hr; reflexivity);
+            destruct l; try discriminate H; eapply Hl; reflexivity.
     - (* Sub *)
       rewrite jac_row_Sub in H.
       destruct r; try discriminate H.
@@ -385,7 +409,7 @@ Section RowShape.
         destruct r; try discriminate H.
         destruct (jac_row V l) as [row'|] eqn:El; [|discriminate H].
         right; right; right. exists q, row'. inversion H. auto.
-    - discriminate H.
-    - discriminate H.
+    - rewrite jac_row_Div in H. discriminate H.
+    - rewrite jac_row_Pow in H. discriminate H.
   Qed.
 End RowShape.
